@@ -1,5 +1,5 @@
 CONSTANTS
-  BASES = {1,2,3,4,5,6,7,8}
+  BASES = {1,3,4,5,6}
   BOTH_LE = FALSE
 INIT Init
 NEXT Next
